@@ -8,7 +8,7 @@
     stuck TCP handlers, and every wait.
     Statements, [exact], [Print Assumptions] only. *)
 From Coq Require Import List NArith Bool.
-From Fabio Require Import Model.Shutdown Proofs.Shutdown.
+From Fabio Require Import Model.Shutdown Proofs.Shutdown Model.ExitSignals Proofs.ExitSignals.
 Import ListNotations.
 Local Open Scope N_scope.
 
@@ -249,3 +249,130 @@ Theorem C18_inflight_nonvacuous :
    [[Done 150; Cut (Fin 300)]; [Done 90; Done 600]]].
 Proof. exact inflight_nonvacuous. Qed.
 Print Assumptions C18_inflight_nonvacuous.
+
+(* ---- The process: exit.Listen (exit/listen.go:22-52) and the exit handler of main() (main.go:123-133)
+   over ARBITRARY lists of signals (SIGHUP / SIGINT / SIGTERM with arrival times), composed with
+   [shutdown] for what the drain does.  [listen_phase true] / [proc_end true] / [req_outcome true] are
+   the code as it is (a channel stays registered with signal.Notify while the handler runs);
+   [first_term] is the declarative "shutdown begins": the arrival time of the first SIGINT/SIGTERM
+   of the list.  [work t0] = any registered servers with any open work at t0. ---- *)
+
+(* the drain starts at the first terminating signal and only then (also for the variant below) *)
+Theorem C18_drain_starts_at_first_term : forall k w work sigs,
+  drain_start (listen_phase k w work sigs) = first_term sigs.
+Proof. exact drain_starts_at_first_term. Qed.
+Print Assumptions C18_drain_starts_at_first_term.
+
+Theorem C18_signal_handler_closed_form : forall w work sigs,
+  listen_phase true w work sigs =
+  match first_term sigs with None => PListening | Some t0 => PDraining t0 end.
+Proof. exact kept_phase_closed_form. Qed.
+Print Assumptions C18_signal_handler_closed_form.
+
+(* SIGHUPs before it are ignored, and whatever arrives after it (any kind, any number, at any
+   time) changes neither when the process ends nor what happens to any request *)
+Theorem C18_later_signals_change_nothing : forall w work pre e post,
+  all_hup pre -> is_term (snd e) = true ->
+  listen_phase true w work (pre ++ e :: post) = PDraining (fst e) /\
+  listen_phase true w work (pre ++ e :: post) = listen_phase true w work [e].
+Proof. exact later_signals_change_nothing. Qed.
+Print Assumptions C18_later_signals_change_nothing.
+
+Theorem C18_later_signals_same_end : forall w work pre e post,
+  all_hup pre -> is_term (snd e) = true ->
+  proc_end true w work (pre ++ e :: post) = proc_end true w work [e].
+Proof. exact later_signals_same_end. Qed.
+Print Assumptions C18_later_signals_same_end.
+
+Theorem C18_later_signals_same_outcomes : forall w reqs pre e post q,
+  all_hup pre -> is_term (snd e) = true ->
+  req_outcome true w reqs (pre ++ e :: post) q = req_outcome true w reqs [e] q.
+Proof. exact later_signals_same_outcomes. Qed.
+Print Assumptions C18_later_signals_same_outcomes.
+
+(* SIGHUPs alone never end the process, close nothing and touch no request *)
+Theorem C18_hups_never_end : forall k w work sigs,
+  all_hup sigs ->
+  listen_phase k w work sigs = PListening /\ proc_end k w work sigs = ERunning /\
+  forall p, proc_accepts w work (listen_phase k w work sigs) p = true.
+Proof. exact hups_never_end. Qed.
+Print Assumptions C18_hups_never_end.
+
+Theorem C18_hups_leave_requests_alone : forall k w reqs sigs q,
+  all_hup sigs -> req_outcome k w reqs sigs q = QFate (untouched (q_end q)).
+Proof. exact hups_leave_requests_alone. Qed.
+Print Assumptions C18_hups_leave_requests_alone.
+
+Theorem C18_end_needs_terminating_signal : forall k w work sigs,
+  proc_end k w work sigs <> ERunning -> exists t0, first_term sigs = Some t0.
+Proof. exact end_needs_terminating_signal. Qed.
+Print Assumptions C18_end_needs_terminating_signal.
+
+(* The three clauses for the process, for EVERY list of signals that has a terminating one.
+   3: main() returns (clean end) no later than the wait after the first terminating signal. *)
+Theorem C18_process_ends_within_wait : forall w work sigs t0,
+  first_term sigs = Some t0 ->
+  exists T, proc_end true w work sigs = EClean (Fin T) /\ t0 <= T /\ T <= t0 + w.
+Proof. exact process_ends_within_wait. Qed.
+Print Assumptions C18_process_ends_within_wait.
+
+(* 2: whatever is open on a registered server then and needs at most the wait ends by itself *)
+Theorem C18_process_inflight_complete : forall w work sigs t0 s l n,
+  first_term sigs = Some t0 ->
+  In s (work t0) -> In l (leaves s) -> In (Fin n) (litems l) -> n <= w ->
+  proc_item w l t0 (proc_end true w work sigs) (Fin n) = Done (t0 + n).
+Proof. exact process_inflight_complete. Qed.
+Print Assumptions C18_process_inflight_complete.
+
+(* ... in absolute time for the requests of the proxy listener main() starts *)
+Theorem C18_process_requests_complete : forall w reqs sigs t0 q n,
+  first_term sigs = Some t0 ->
+  In q reqs -> q_start q < t0 -> q_end q = Fin n -> n <= t0 + w ->
+  req_outcome true w reqs sigs q = QFate (Done n).
+Proof. exact process_requests_complete. Qed.
+Print Assumptions C18_process_requests_complete.
+
+(* 1: from the first terminating signal on nothing is accepted; before it everything is *)
+Theorem C18_process_no_accept : forall w work sigs t0 p,
+  first_term sigs = Some t0 -> t0 <= p ->
+  proc_accepts w work (listen_phase true w work sigs) p = false.
+Proof. exact process_no_accept. Qed.
+Print Assumptions C18_process_no_accept.
+
+Theorem C18_process_refuses_new_requests : forall w reqs sigs t0 q,
+  first_term sigs = Some t0 -> t0 <= q_start q -> req_outcome true w reqs sigs q = QRefused.
+Proof. exact process_refuses_new_requests. Qed.
+Print Assumptions C18_process_refuses_new_requests.
+
+Theorem C18_process_accepts_before : forall w work k sigs t0 p,
+  first_term sigs = Some t0 -> p < t0 -> proc_accepts w work (listen_phase k w work sigs) p = true.
+Proof. exact process_accepts_before. Qed.
+Print Assumptions C18_process_accepts_before.
+
+(* NOT the code: a handler that calls signal.Stop before the exit handler runs.  A SIGHUP (or a
+   second SIGTERM/SIGINT) during the drain then ends the process by the signal's default action
+   and a request that would have been answered within the wait is cut there: clause 2 is false. *)
+Theorem C18_stop_notify_before_drain_refuted :
+  exists w reqs sigs q n t0 k,
+    first_term sigs = Some t0 /\ In q reqs /\ q_start q < t0 /\ q_end q = Fin n /\ n <= t0 + w /\
+    proc_end false w (main_work reqs) sigs = EKilled k /\ k < n /\
+    req_outcome false w reqs sigs q = QFate (Cut (Fin k)).
+Proof. exact stop_notify_before_drain_refuted. Qed.
+Print Assumptions C18_stop_notify_before_drain_refuted.
+
+(* non-vacuity: HUP@100 TERM@200 HUP@450 INT@600, wait 1000, requests ending at 800 and never *)
+Theorem C18_signals_nonvacuous :
+  first_term ex_sigs = Some 200 /\
+  proc_end true 1000 (main_work ex_reqs) ex_sigs = EClean (Fin 1200) /\
+  map (req_outcome true 1000 ex_reqs ex_sigs) ex_reqs = [QFate (Done 800); QFate (Cut (Fin 1200))] /\
+  req_outcome true 1000 ex_reqs ex_sigs {| q_start := 300; q_end := Fin 400 |} = QRefused /\
+  proc_accepts 1000 (main_work ex_reqs) (listen_phase true 1000 (main_work ex_reqs) ex_sigs) 150 = true /\
+  proc_accepts 1000 (main_work ex_reqs) (listen_phase true 1000 (main_work ex_reqs) ex_sigs) 200 = false.
+Proof. exact signals_nonvacuous. Qed.
+Print Assumptions C18_signals_nonvacuous.
+
+Theorem C18_hups_nonvacuous :
+  all_hup [(100, SHup); (300, SHup); (301, SHup)] /\
+  proc_end true 1000 (main_work ex_reqs) [(100, SHup); (300, SHup); (301, SHup)] = ERunning.
+Proof. exact hups_nonvacuous. Qed.
+Print Assumptions C18_hups_nonvacuous.
